@@ -8,16 +8,34 @@
 
 using namespace verif;
 
-struct INode {
-	int lo, hi;
+// An endpoint type whose move leaves the source in a recognisable "moved-from" state (like a heap-backed big integer or
+// a string key): the tree may copy endpoints freely but must not use a value after moving from it.
+struct MovP {
+	int v;
+	MovP(int x = 0) : v(x) {}
+	MovP(const MovP &) = default;
+	MovP(MovP &&o) noexcept : v(o.v) { o.v = -1000000; }
+	MovP &operator=(const MovP &) = default;
+	MovP &operator=(MovP &&o) noexcept { int t = o.v; if(&o != this) o.v = -1000000; v = t; return *this; }
+	friend bool operator<(const MovP &a, const MovP &b) { return a.v < b.v; }
+	friend bool operator>(const MovP &a, const MovP &b) { return a.v > b.v; }
+	friend bool operator<=(const MovP &a, const MovP &b) { return a.v <= b.v; }
+	friend bool operator>=(const MovP &a, const MovP &b) { return a.v >= b.v; }
+	friend bool operator==(const MovP &a, const MovP &b) { return a.v == b.v; }
+	friend bool operator!=(const MovP &a, const MovP &b) { return a.v != b.v; }
+};
+template<class P> struct INodeT {
+	P lo, hi;
 	frg::rbtree_hook rb;
-	frg::interval_hook<int> ih;
+	frg::interval_hook<P> ih;
 	int id;
 };
-using ITree = frg::interval_tree<INode, int, &INode::lo, &INode::hi, &INode::rb, &INode::ih>;
 static constexpr int MAXNODES = 32;
 
-struct IvHarness {
+template<class P>
+struct IvHarnessT {
+	using INode = INodeT<P>;
+	using ITree = frg::interval_tree<INode, P, &INode::lo, &INode::hi, &INode::rb, &INode::ih>;
 	static constexpr bool has_snapshot = true;
 	InstResult *res = nullptr;
 	int U, copies, M, fresh, n = 0;
@@ -28,7 +46,7 @@ struct IvHarness {
 	uint32_t in_tree = 0; // bitmask: reference multiset
 	std::vector<std::pair<int, int>> ivs;
 
-	IvHarness(int U_, int copies_, int M_, int fresh_) : U(U_), copies(copies_), M(M_), fresh(fresh_) {
+	IvHarnessT(int U_, int copies_, int M_, int fresh_) : U(U_), copies(copies_), M(M_), fresh(fresh_) {
 		for(int c = 0; c < copies; c++)
 			for(int lo = 0; lo <= U; lo++) for(int hi = lo; hi <= U; hi++) ivs.push_back({lo, hi});
 		n = (int)ivs.size();
@@ -108,6 +126,7 @@ struct IvHarness {
 	void load(const std::string &b) { memcpy(&w, b.data(), sizeof w); memcpy(&in_tree, b.data() + sizeof w, 4); }
 };
 
+using IvHarness = IvHarnessT<int>;
 static Instance mkinst(int U, int copies, int M, int fresh) {
 	std::string name = "iv-U" + std::to_string(U) + "-c" + std::to_string(copies) + "-M" + std::to_string(M) + "-f" + std::to_string(fresh);
 	return bfs_instance<IvHarness>(name, BfsOptions{}, U, copies, M, fresh);
@@ -120,6 +139,7 @@ static std::vector<Instance> mk(const std::string &tier) {
 	std::vector<Cfg> cfgs = th ? std::vector<Cfg>{{2, 2, 6, 1}, {3, 1, 7, 1}, {3, 2, 5, 1}, {4, 1, 6, 1}, {5, 1, 4, 1}, {1, 3, 7, 1}, {2, 1, 6, 0}, {1, 3, 5, 0}, {1, 2, 4, 0}, {3, 1, 2, 0}}
 	                           : std::vector<Cfg>{{2, 2, 5, 1}, {3, 1, 6, 1}, {4, 1, 4, 1}, {1, 3, 6, 1}, {2, 1, 5, 0}, {1, 2, 4, 0}};
 	for(auto c : cfgs) v.push_back(mkinst(c.U, c.copies, c.M, c.fresh));
+	v.push_back(bfs_instance<IvHarnessT<MovP>>("iv-movable-endpoint-U3-c1-M" + std::to_string(th ? 5 : 4), BfsOptions{}, 3, 1, th ? 5 : 4, 1));
 	return v;
 }
 int main(int argc, char **argv) {
